@@ -262,6 +262,9 @@ func execute(planAny any, cfg simrt.Config) *simkit.Outcome {
 		if r.stop {
 			return
 		}
+		if r.c23 {
+			r.latePersist()
+		}
 		if r.c22 {
 			r.suffixReplay()
 			for i := range p.Reps {
@@ -405,6 +408,51 @@ func (r *run) prefixChecks(f *craft.ClusterFSM, st *craft.VerifState, cur primar
 		r.checkRoles("restore", Op{}, st, st2, fmt.Sprintf("restored from the snapshot taken %s; %s", what, note))
 	}
 	return true
+}
+
+// latePersist (C23): hashicorp/raft calls Snapshot() on the FSM goroutine and
+// runs Persist() on another one while Apply continues. For every "snap" event:
+// Snapshot() after At entries, Delay more entries applied, then Persist(); the
+// persisted image must restore to a state whose role facts are no worse than
+// those of the state the snapshot was taken from.
+func (r *run) latePersist() {
+	p := r.p
+	for _, rep := range p.Reps {
+		for _, e := range rep.Ev {
+			if e.K != "snap" || e.Delay <= 0 || e.At >= len(p.Log) || r.stop {
+				continue
+			}
+			f := craft.NewClusterFSM(nopLog)
+			for j := 0; j < e.At; j++ {
+				if _, ok := r.apply(f, p.Log[j], "late-persist node"); !ok {
+					return
+				}
+			}
+			s, ok := r.snapshot(f, "late-persist node")
+			if !ok {
+				return
+			}
+			pre := f.VerifState()
+			to := min(len(p.Log), e.At+e.Delay)
+			for j := e.At; j < to; j++ {
+				if _, ok := r.apply(f, p.Log[j], "late-persist node"); !ok {
+					return
+				}
+			}
+			data, ok := r.persist(s, "late-persist node")
+			if !ok {
+				return
+			}
+			f2 := craft.NewClusterFSM(nopLog)
+			if !r.restore(f2, data, "late-persist restore") {
+				return
+			}
+			simrt.Count("fault.persist_after_later_applies", 1)
+			r.out.Evals++
+			r.checkRoles("restore_of_snapshot_persisted_after_later_applies", Op{}, pre, f2.VerifState(),
+				fmt.Sprintf("snapshot taken after %d entries, persisted after %d more were applied, then restored", e.At, to-e.At))
+		}
+	}
 }
 
 // suffixReplay: for every prefix k, a node that starts from the snapshot taken
